@@ -721,6 +721,12 @@ var longPrograms = []string{
 	`{ s = s sprintf("%" (NR % 140 + 1) "d", 1) } END { print length(s) }`,
 	`{ n += split($0, parts, "[" (NR % 130) "x ]") } END { print n }`,
 	`{ t = $0; n += gsub("[f" (NR % 120) "]", "-", t) } END { print n }`,
+	// deep recursion: the value stack grows in the middle of a function; locals assigned before a
+	// nested call are re-read after it, at every depth
+	`function chk(n, a, b, c) { a = n; b = n * 2; c = "s" n; if (n > 0) chk(n - 1); if (a != n || b != n * 2 || c != "s" n) bad = bad " " n; return a } BEGIN { for (d = 10; d <= 200; d += 10) chk(d); print "bad:" bad }`,
+	`function cat(n, a, b) { a = "a" n; b = a "-" n "-" (n > 0 ? cat(n - 1) : "z") "-" a "-" n; if (a != "a" n) bad = bad " " n; return length(b) % 7 } BEGIN { for (d = 5; d <= 160; d += 5) t = t cat(d); print t; print "bad:" bad }`,
+	`function arr(n, la, k) { la[n] = n; la["x"] = n + 1; if (n > 0) arr(n - 1); if (la[n] != n || la["x"] != n + 1 || length(la) != 2 - (n == "x")) bad = bad " " n; return 0 } BEGIN { arr(150); print "bad:" bad }`,
+	`function fib(n, a, b) { if (n < 2) return n; a = fib(n - 1); b = fib(n - 2); return a + b } BEGIN { print fib(15) } function deep(n, s) { s = n; return n > 0 ? deep(n - 1) + (s == n) : 0 } END { print deep(300) }`,
 	// after the caches are full: what is compiled / parsed next must behave like the first entries
 	`{ r += ("x" NR) ~ ("^x" NR "$") } END { print r; match("xabcdabcd", "ab|abcd"); print RSTART, RLENGTH; s = "xabcdabcd"; print sub("ab|abcd", "<&>", s), s; n = split("1ab2abcd3", parts, "ab|abcd"); print n, parts[2]; print gsub(/a|ab/, "-", s), s; print "zab" ~ "^(z|za)b$" }`,
 	`{ s = s sprintf("%" (NR % 140 + 1) "d", 1) } END { print length(s); printf "%5.2f|%-4d|%c|%s|%5s|%.2s|%i\n", 3.14159, 42, 65, "str", "ab", "abcdef", 7.9; printf "%d %d\n", 1 }`,
